@@ -990,6 +990,7 @@ func (w *world) Finished(e *sim.Env) bool {
 				w.phase = 1
 				e.Spawn("zepi", func() {
 					zsimrt.Sleep("epi:s3", 3*w.lease)
+					w.timerResidue("C05")
 					w.phase = 2
 				}, nil)
 				return false
@@ -1047,6 +1048,27 @@ func (w *world) residue() {
 	if _, ok := w.be.PeekLive(lockKey); ok {
 		e.Violate("C04", "residue_record", "lock record present after the final TryLock/Unlock round")
 	}
+	w.timerResidue("C04")
+}
+
+// timerResidue: every holder has unlocked and nothing is going on. One renewal
+// attempt per tenure may still be armed (it lost the race with Unlock); a lease
+// later it has run, found nothing to renew and armed nothing. What is still
+// pending in the timer package after that was left behind by the lock code.
+func (w *world) timerResidue(prop string) {
+	if w.c.Knob("bg_timers", 0) > 0 || w.c.Knob("noise_lock", 0) > 0 || len(w.inside) > 0 || w.deadTask != "" {
+		return
+	}
+	zsimrt.Sleep("epi:settle", w.lease+w.lease/4)
+	if n := timeout.VerifPending(); n != 0 {
+		w.e.Violate(prop, "residue_timer", "every holder has unlocked and %v of simulated time have passed, yet %d call(s) are still pending in the timeout package: a renewal or retry timer was left armed", w.lease+w.lease/4, n)
+		return
+	}
+	if _, ok := w.be.PeekLive(lockKey); ok {
+		w.e.Violate(prop, "residue_record", "the lock record is back %v after every holder had unlocked", w.lease+w.lease/4)
+		return
+	}
+	w.e.Probe("no_timer_left_behind")
 }
 
 func (w *world) Teardown(e *sim.Env) {
